@@ -37,6 +37,7 @@ import (
 	"verifharness/drv"
 	"verifharness/emit"
 
+	"github.com/zitadel/oidc/v3/pkg/client"
 	"github.com/zitadel/oidc/v3/pkg/client/rp"
 	httphelper "github.com/zitadel/oidc/v3/pkg/http"
 	"github.com/zitadel/oidc/v3/pkg/oidc"
@@ -381,6 +382,19 @@ func httpResp(req *http.Request, status int, payload string) *http.Response {
 }
 
 func (f *fakeRT) RoundTrip(req *http.Request) (*http.Response, error) {
+	// the OP's other endpoints (reached only by the API calls between the logins)
+	switch {
+	case strings.HasSuffix(req.URL.Path, "/userinfo"):
+		return httpResp(req, 200, `{"sub":"user-1","name":"User One"}`), nil
+	case strings.HasSuffix(req.URL.Path, "/revoke"):
+		return httpResp(req, 200, `{}`), nil
+	case strings.HasSuffix(req.URL.Path, "/end_session"):
+		resp := httpResp(req, 302, ``)
+		resp.Header.Set("Location", "https://rp.example/bye?state=bye-state")
+		return resp, nil
+	case strings.HasSuffix(req.URL.Path, "/device_authorization"):
+		return httpResp(req, 200, `{"device_code":"dc-1","user_code":"ABCD-EFGH","verification_uri":"https://op.example/device","expires_in":600,"interval":5}`), nil
+	}
 	if f.doc != nil && req.Method == http.MethodGet {
 		u := req.URL.String()
 		switch {
@@ -456,6 +470,10 @@ type party struct {
 	states []string // what stateFn returns, in call order
 	nest   func()   // pending re-entrant login, run while the current login evaluates its URL options
 	called []string // handlers that ran, as Coq terms
+	rp     rp.RelyingParty
+	// the scopes slice handed to the constructor: the driver's OWN copy (cfg.scopes stays the
+	// ground truth of what was configured), with spare capacity, compared after every API call
+	callerScopes []string
 }
 
 func newParty(w *world, cfg config, pemKey []byte, ok opKeys) (*party, error) {
@@ -499,17 +517,19 @@ func newParty(w *world, cfg config, pemKey []byte, ok opKeys) (*party, error) {
 	}
 	var party rp.RelyingParty
 	var err error
+	p.callerScopes = append(make([]string, 0, len(cfg.scopes)+4), cfg.scopes...)
 	if cfg.ctor == "oidc" {
-		party, err = rp.NewRelyingPartyOIDC(context.Background(), cfg.doc.issuer, cfg.client, "secret", cfg.redirect, cfg.scopes, opts...)
+		party, err = rp.NewRelyingPartyOIDC(context.Background(), cfg.doc.issuer, cfg.client, "secret", cfg.redirect, p.callerScopes, opts...)
 	} else {
 		party, err = rp.NewRelyingPartyOAuth(&oauth2.Config{
-			ClientID: cfg.client, ClientSecret: "secret", RedirectURL: cfg.redirect, Scopes: cfg.scopes,
+			ClientID: cfg.client, ClientSecret: "secret", RedirectURL: cfg.redirect, Scopes: p.callerScopes,
 			Endpoint: oauth2.Endpoint{AuthURL: cfg.auth, TokenURL: "https://op.example/oauth/token"},
 		}, opts...)
 	}
 	if err != nil {
 		return nil, err
 	}
+	p.rp = party
 	var up []rp.URLParamOpt
 	for _, kv := range cfg.extra {
 		up = append(up, rp.WithURLParam(kv[0], kv[1]))
@@ -622,7 +642,7 @@ func apply(j jar, cs []cmd) jar {
 // ---------- operations ----------
 
 type op struct {
-	kind  string // start | callback | set | del
+	kind  string // start | callback | set | del | api (name = which call)
 	state string // start
 	q     [][2]string
 	post  bool
@@ -907,12 +927,87 @@ func (x *runner) exec(o op) {
 				}
 			}
 		}
+	case "api":
+		// another API call on the same RP value; afterwards rp.AuthURL must still render the configured values
+		x.isolated(true, func() { drv.Catch(func() { p.callAPI(o.name) }) })
+		var loc string
+		if pn := drv.Catch(func() { loc = rp.AuthURL("probe-state", p.rp) }); pn != "" {
+			panic(pn)
+		}
+		base, rawq, _ := strings.Cut(loc, "?")
+		ps := sortedParams(rawq)
+		if strings.Join(p.callerScopes, "\x00") != strings.Join(p.cfg.scopes, "\x00") || len(p.callerScopes) != len(p.cfg.scopes) {
+			ps = append(ps, [2]string{"<caller-scopes-slice-changed>", strings.Join(p.callerScopes, " ")})
+		}
+		x.emit(emit.Ctor("OApi", emit.Str(o.name)), emit.Ctor("EvProbe", emit.Str(base), pairs(ps)),
+			map[string]any{"op": "api", "call": o.name, "probe": clip(loc), "caller_scopes": strings.Join(p.callerScopes, " ")})
 	case "set":
 		x.emit(emit.Ctor("OSet", emit.Str(o.e.name), o.e.sym.coq()), "EvNone", map[string]any{"op": "set", "name": o.e.name, "value": clip(o.e.sym.describe())})
 		x.j = x.j.set(o.e)
 	case "del":
 		x.emit(emit.Ctor("ODel", emit.Str(o.name)), "EvNone", map[string]any{"op": "del", "name": o.name})
 		x.j = x.j.del(o.name)
+	}
+}
+
+func sortedParams(rawq string) [][2]string {
+	vals, err := url.ParseQuery(rawq)
+	var ps [][2]string
+	if err != nil {
+		ps = append(ps, [2]string{"<unparsable>", rawq})
+	}
+	keys := make([]string, 0, len(vals))
+	for k := range vals {
+		keys = append(keys, k)
+	}
+	sort.Strings(keys)
+	for _, k := range keys {
+		for _, v := range vals[k] {
+			ps = append(ps, [2]string{k, v})
+		}
+	}
+	return ps
+}
+
+// apiCalls: what else an application does with its RelyingParty value.  Results and errors
+// are irrelevant (an RP built by NewRelyingPartyOAuth lacks most endpoints): the point is
+// that the call happened on THIS RP before the next login.
+var apiCalls = []string{"ClientCredentials", "ClientCredentials", "RefreshTokens", "Userinfo", "EndSession", "RevokeToken",
+	"DeviceAuthorization", "DeviceAuthorizationOwnScopes", "CodeExchange", "GenerateAndStoreCodeChallenge",
+	"AuthURLWithOptions", "JWTProfileAssertion", "ClientCredentialsTwice"}
+
+func (p *party) callAPI(name string) {
+	ctx, cancel := context.WithTimeout(context.Background(), 2*time.Second)
+	defer cancel()
+	switch name {
+	case "ClientCredentials":
+		rp.ClientCredentials(ctx, p.rp, url.Values{"audience": {"https://api.example"}})
+	case "ClientCredentialsTwice":
+		rp.ClientCredentials(ctx, p.rp, nil)
+		rp.ClientCredentials(ctx, p.rp, nil)
+	case "RefreshTokens":
+		rp.RefreshTokens[*oidc.IDTokenClaims](ctx, p.rp, "refresh-token-1", "", "")
+	case "Userinfo":
+		rp.Userinfo[*oidc.UserInfo](ctx, "at", "Bearer", "user-1", p.rp)
+	case "EndSession":
+		rp.EndSession(ctx, p.rp, "id-token-hint", "https://rp.example/bye", "bye-state")
+	case "RevokeToken":
+		rp.RevokeToken(ctx, p.rp, "refresh-token-1", "refresh_token")
+	case "DeviceAuthorization": // with the RP's own scopes slice, as an application would
+		rp.DeviceAuthorization(ctx, p.rp.OAuthConfig().Scopes, p.rp, nil)
+	case "DeviceAuthorizationOwnScopes":
+		rp.DeviceAuthorization(ctx, []string{"offline_access", "openid"}, p.rp, nil)
+	case "CodeExchange":
+		rp.CodeExchange[*oidc.IDTokenClaims](ctx, "direct-code", p.rp, rp.WithCodeVerifier("direct-verifier"))
+	case "GenerateAndStoreCodeChallenge": // into a response nobody sends
+		rp.GenerateAndStoreCodeChallenge(httptest.NewRecorder(), p.rp)
+	case "AuthURLWithOptions":
+		_ = rp.AuthURL("other-state", p.rp, rp.WithPrompt("login", "consent"), rp.WithCodeChallenge("someone-elses-challenge"),
+			rp.AuthURLOpt(rp.WithURLParam("scope", "other scopes")), rp.AuthURLOpt(rp.WithURLParam("client_id", "other-client")))
+	case "JWTProfileAssertion":
+		if s := p.rp.Signer(); s != nil {
+			client.SignedJWTProfileAssertion(p.rp.OAuthConfig().ClientID, []string{p.rp.Issuer()}, time.Hour, s)
+		}
 	}
 }
 
@@ -979,6 +1074,9 @@ func genDoc(r drv.Rand, c *config, methodIdx int) (tags []string) {
 	f["token_endpoint"] = d.token
 	f["jwks_uri"] = d.jwks
 	f["userinfo_endpoint"] = base + "/userinfo"
+	f["revocation_endpoint"] = base + "/revoke"
+	f["end_session_endpoint"] = base + "/end_session"
+	f["device_authorization_endpoint"] = base + "/device_authorization"
 	f["subject_types_supported"] = []string{"public"}
 	absent := struct{}{}
 	mv := methodVariants[methodIdx%len(methodVariants)]
@@ -1068,7 +1166,11 @@ func genConfig(r drv.Rand, w *world, idx int) (config, []string) {
 		jwt:      r.Chance(1, 4),
 		client:   drv.Pick(r, []string{"web-client", "web-client", "web-client", "cli ent&1=2", "native/app", "", "null", "Web-Client ", "client-" + strings.Repeat("0123456789", 110)}),
 		redirect: drv.Pick(r, []string{"https://rp.example/cb", "https://rp.example/cb", "http://localhost:9999/auth/callback?x=1&y=2", ""}),
-		scopes:   drv.Pick(r, [][]string{{"openid"}, {"openid", "profile", "email"}, {"openid"}, {"openid", "profile", "email"}, {}, {"a+b", "c d"}, {"openid", "OpenID", "openid"}, manyScopes}),
+		scopes:   drv.Pick(r, [][]string{{"openid"}, {"openid", "profile", "email"}, {"openid"}, {"openid", "profile", "email"}, {}, {"a+b", "c d"}, {"openid", "OpenID", "openid"}, manyScopes,
+			// offline_access / openid at every position (a helper that filters or reorders "special" scopes in place would show)
+			{"openid", "offline_access", "profile", "email"}, {"offline_access", "openid", "profile"}, {"openid", "profile", "offline_access", "email"},
+			{"openid", "profile", "email", "offline_access"}, {"offline_access"}, {"profile", "openid"}, {"profile", "email", "openid"},
+			{"offline_access", "offline_access", "openid"}, {"openid", "offline_access"}, {"email", "openid", "offline_access", "profile", "address", "phone"}}),
 		auth:     drv.Pick(r, []string{"https://op.example/authorize", "https://op.example/oauth/v2/authorize"}),
 		style:    drv.Pick(r, []oauth2.AuthStyle{oauth2.AuthStyleInParams, oauth2.AuthStyleInParams, oauth2.AuthStyleInHeader}),
 	}
@@ -1513,6 +1615,22 @@ func main() {
 				}
 			}
 		}
+		// OTHER API calls on the same RP value, before / between / after the browser's operations
+		if r.Chance(2, 5) {
+			napi := 1 + r.IntN(3)
+			for a := 0; a < napi; a++ {
+				at := 0
+				if a > 0 || r.Bool() {
+					at = r.IntN(len(ops) + 1)
+				}
+				ops = append(ops, op{})
+				copy(ops[at+1:], ops[at:])
+				ops[at] = op{kind: "api", name: drv.Pick(r, apiCalls)}
+			}
+			tags = append(tags, "api=true")
+		} else {
+			tags = append(tags, "api=false")
+		}
 		res := p.runOps(r, j0, ops)
 		if len(res.opsCoq) == 0 && !res.panicked {
 			dropped++
@@ -1544,7 +1662,7 @@ func main() {
 			Human: map[string]any{"config": fmt.Sprintf("%+v", c), "jar": j0.coq(), "steps": res.human}})
 	}
 	err = w.Close(emit.Meta{Property: "C17", Tier: cfg.Tier, Seed: cfg.Seed,
-		Rule: "each case = one way of building the RP + initial jar + history in one browser jar. Building the RP: constructor rp.NewRelyingPartyOAuth (5 of 9 cases) or rp.NewRelyingPartyOIDC against a mock OP (4 of 9; discovery document with code_challenge_methods_supported absent / null / [] / [S256] / [plain] / [plain,S256] / case and white-space variants of S256 / unknown methods (18 variants, cycled), scopes_supported absent / same / superset / subset / disjoint / upper-case / empty / null relative to the configured scopes, response types, grant types, token endpoint auth methods, response modes, unknown members; ID tokens signed by the mock OP, also token responses without id_token), the option list IN ORDER (WithPKCE / WithCookieHandler once or several times, earlier ones with a foreign CookieHandler, the last one with the RP's keys; WithJWTProfile and the neutral options at random positions), in 1 of 4 cases a second RP with the opposite PKCE setting built and used afterwards in the same process; client (also long / keyword-like), redirect URI, scopes (also 61 scopes, duplicates), URL options, auth style, cookie keys: hash key of 16/32/33/48/64/65/100 bytes, block key none/16/24/32. kind=pair: scripted jar (valid / other value / minted by a foreign CookieHandler whose keys are near misses of the RP's: differing tail behind a 64/32/16/8-byte prefix, prefix or extension of the hash key, same hash key with other block key, first byte, unrelated / other name / swapped / truncated / flipped / random / plaintext / missing / duplicate cookies) and one callback query; kind=ordering: every interleaving of 2 or 3 logins and their callbacks, cycled; kind=overlap: requests that run re-entrantly, on the same handler values, inside another request's option evaluation: login inside login (1st of 2, 2nd of 3, twice, after a finished flow), login+callback inside a callback, double-submitted callback, callback inside a login; states: short / empty / non-ASCII / 255-2000 bytes with shared prefixes / too long for the cookie; callback query shapes: state present / absent / empty / duplicated (same, different, first or last matching) / in the POST body vs the URL, with or without code and error; every 5th callback state is a near miss (prefix, suffix, case, Unicode case-folding partners, surrounding white space, trailing slash, one byte, cut at 64/128/255/256/257, tampered tail); every 8th code is empty / keyword-like / > 4 KiB; kind=history: random logins (some overlapped), callbacks (GET/POST, lost responses), deletions and unacceptable foreign cookie writes; kind=replay: histories that also re-insert older validly minted cookies. Non-trivial = the model's path class != 0 (anything beyond 'no state cookie in the jar'); distinct = distinct (input, path).",
+		Rule: "each case = one way of building the RP + initial jar + history in one browser jar. Building the RP: constructor rp.NewRelyingPartyOAuth (5 of 9 cases) or rp.NewRelyingPartyOIDC against a mock OP (4 of 9; discovery document with code_challenge_methods_supported absent / null / [] / [S256] / [plain] / [plain,S256] / case and white-space variants of S256 / unknown methods (18 variants, cycled), scopes_supported absent / same / superset / subset / disjoint / upper-case / empty / null relative to the configured scopes, response types, grant types, token endpoint auth methods, response modes, unknown members; ID tokens signed by the mock OP, also token responses without id_token), the option list IN ORDER (WithPKCE / WithCookieHandler once or several times, earlier ones with a foreign CookieHandler, the last one with the RP's keys; WithJWTProfile and the neutral options at random positions), in 1 of 4 cases a second RP with the opposite PKCE setting built and used afterwards in the same process; client (also long / keyword-like), redirect URI, scopes (also 61 scopes, duplicates), URL options, auth style, cookie keys: hash key of 16/32/33/48/64/65/100 bytes, block key none/16/24/32. kind=pair: scripted jar (valid / other value / minted by a foreign CookieHandler whose keys are near misses of the RP's: differing tail behind a 64/32/16/8-byte prefix, prefix or extension of the hash key, same hash key with other block key, first byte, unrelated / other name / swapped / truncated / flipped / random / plaintext / missing / duplicate cookies) and one callback query; kind=ordering: every interleaving of 2 or 3 logins and their callbacks, cycled; kind=overlap: requests that run re-entrantly, on the same handler values, inside another request's option evaluation: login inside login (1st of 2, 2nd of 3, twice, after a finished flow), login+callback inside a callback, double-submitted callback, callback inside a login; states: short / empty / non-ASCII / 255-2000 bytes with shared prefixes / too long for the cookie; callback query shapes: state present / absent / empty / duplicated (same, different, first or last matching) / in the POST body vs the URL, with or without code and error; every 5th callback state is a near miss (prefix, suffix, case, Unicode case-folding partners, surrounding white space, trailing slash, one byte, cut at 64/128/255/256/257, tampered tail); every 8th code is empty / keyword-like / > 4 KiB; kind=history: random logins (some overlapped), callbacks (GET/POST, lost responses), deletions and unacceptable foreign cookie writes; kind=replay: histories that also re-insert older validly minted cookies. In 2 of 5 cases of every kind 1-3 OTHER API calls on the same RP value (rp.ClientCredentials once / twice, RefreshTokens, Userinfo, EndSession, RevokeToken, DeviceAuthorization with the RP's own or other scopes, CodeExchange, GenerateAndStoreCodeChallenge, AuthURL with other options, JWT profile assertion; mock OP endpoints for all of them) are inserted before / between / after the browser's operations, each followed by rp.AuthURL(probe-state, rp), which must render the configured values; the RP gets the driver's own copy of the scopes slice (spare capacity 4), compared with the configured scopes after each call; scope lists with offline_access / openid at every position. Non-trivial = the model's path class != 0 (anything beyond 'no state cookie in the jar'); distinct = distinct (input, path).",
 		Extra: map[string]any{"orderings_2": len(ord2), "orderings_3": len(ord3), "ordering_cases": ordIdx, "dropped": dropped},
 	})
 	if err != nil {
